@@ -44,11 +44,12 @@ pub struct Profile {
     pub both_backends: bool,
     pub clock_back_pct: u64,
     pub fault_pct: u64,     // share of appends/batches preceded by an injected I/O fault
+    pub reclaim_pct: u64,   // per op: observe the reclamation bookkeeping (`trks`), run the reclaimer, list the directory
 }
 
 pub fn profile(name: &str) -> Profile {
     let base = Profile { name: "seq", n_quick: 400, n_thorough: 6000, ops: (12, 60), topics: 2, restart_pct: 0, reject_pct: 0,
-        peek_pct: 15, offset_pct: 0, multi_unit_pct: 3, marks_pct: 0, alo_pct: 30, mmap_pct: 40, both_backends: false, clock_back_pct: 0, fault_pct: 0 };
+        peek_pct: 15, offset_pct: 0, multi_unit_pct: 3, marks_pct: 0, alo_pct: 30, mmap_pct: 40, both_backends: false, clock_back_pct: 0, fault_pct: 0, reclaim_pct: 0 };
     match name {
         "seq" => base,
         "peek" => Profile { name: "peek", peek_pct: 45, offset_pct: 35, ..base },
@@ -58,6 +59,7 @@ pub fn profile(name: &str) -> Profile {
         "restart_any" => Profile { name: "restart_any", restart_pct: 8, reject_pct: 5, alo_pct: 30, multi_unit_pct: 6, clock_back_pct: 15, ..base },
         "backends" => Profile { name: "backends", restart_pct: 4, reject_pct: 6, peek_pct: 25, offset_pct: 20, multi_unit_pct: 5, both_backends: true, ..base },
         "faults" => Profile { name: "faults", fault_pct: 22, reject_pct: 6, restart_pct: 3, multi_unit_pct: 2, ..base },
+        "reclaim" => Profile { name: "reclaim", reclaim_pct: 14, restart_pct: 3, ops: (50, 140), topics: 3, peek_pct: 25, offset_pct: 10, multi_unit_pct: 1, ..base },
         "marks" => Profile { name: "marks", marks_pct: 45, restart_pct: 10, ops: (6, 30), ..base },
         _ => panic!("unknown profile {}", name),
     }
@@ -93,6 +95,10 @@ fn gen_size(r: &mut Rng, g: &Geo, st: &SimTopic, p: &Profile) -> u64 {
         // more than one unit
         let units = 1 + r.below(2);
         return (units * g.bs + r.below(g.bs / 2)).min(g.max_alloc - g.meta);
+    }
+    if p.reclaim_pct > 0 && c < 75 {
+        // fill blocks and files quickly: entries of a third of a block up to a full block
+        return g.bs / 3 + r.below(g.bs - g.bs / 3 - g.meta + 1);
     }
     if c < 30 {
         *r.pick(&[0u64, 0, 1, 5, 127, 128, 129, 200])
@@ -158,6 +164,14 @@ pub fn gen_program(r: &mut Rng, g: &Geo, p: &Profile, backend: &str, seed_tag: u
                     lines.push(format!("clock {}", clock));
                     lines.push("open".into());
                 }
+            }
+            continue;
+        }
+        if r.chance(p.reclaim_pct) {
+            match r.below(5) {
+                0 | 1 => lines.push("trks".into()),
+                2 => lines.push("ls".into()),
+                _ => { lines.push("reclaim".into()); lines.push("trks".into()); }
             }
             continue;
         }
@@ -286,6 +300,18 @@ pub fn gen_program(r: &mut Rng, g: &Geo, p: &Profile, backend: &str, seed_tag: u
             for _ in 0..3 { lines.push(format!("bread {} {} 1 -", st.name, u64::MAX)); }
         }
         lines.push(format!("count {}", st.name));
+    }
+    if p.reclaim_pct > 0 {
+        lines.push("trks".into());
+        lines.push("reclaim".into());
+        lines.push("ls".into());
+        lines.push("restart".into());
+        lines.push(format!("clock {}", clock + 50_000));
+        lines.push("open".into());
+        for st in &topics {
+            lines.push(format!("count {}", st.name));
+            lines.push(format!("bread {} {} 1 -", st.name, u64::MAX));
+        }
     }
     lines
 }
